@@ -104,6 +104,9 @@ pub fn fillers(d: Dialect) -> Vec<X> {
     v.push(X::Case(vec![(X::Bin(b(p.clone()), BinOper::Equal, b(X::Int(1))), q.clone())], Some(b(r.clone()))));
     v.push(X::Int(-3));
     v.push(X::Tuple(vec![p.clone(), q.clone()]));
+    // enum cast over a compound expression: CAST(.. AS "mood") on Postgres, the bare operand elsewhere
+    v.push(X::AsEnum("mood".into(), b(X::Bin(b(p.clone()), BinOper::Add, b(q.clone())))));
+    v.push(X::AsEnum("mood".into(), b(X::Bin(b(p.clone()), BinOper::Or, b(q.clone())))));
     v
 }
 
@@ -137,6 +140,7 @@ pub fn frames(d: Dialect, h: &X) -> Vec<(String, X)> {
     v.push(("CASE/then".into(), X::Case(vec![(X::Bin(b(s.clone()), BinOper::Equal, b(X::Int(1))), h.clone())], Some(b(r.clone())))));
     v.push(("CASE/else".into(), X::Case(vec![(X::Bin(b(s.clone()), BinOper::Equal, b(X::Int(1))), r.clone())], Some(b(h.clone())))));
     v.push(("tuple".into(), X::Tuple(vec![h.clone(), s.clone()])));
+    v.push(("AS ENUM".into(), X::AsEnum("mood".into(), b(h.clone()))));
     v
 }
 
